@@ -1282,7 +1282,8 @@ theorem named_notinfile_meets (cmd : Cmd) (pkg : Pkg) (fl : Flags) (hgo : ∀ f 
 /-- what `region … = .WF` means: a valid package in a well-formed selection, or the not-in-file situation in any package -/
 theorem region_wf_cases {cmd : Cmd} {pkg : Pkg} {fl : Flags} (h : region cmd pkg fl = .WF) :
     (validPkg pkg = true ∧ regionValid cmd pkg fl = .WF) ∨
-    (validPkg pkg = false ∧ (∀ f ∈ pkg, endsGo f.name = true) ∧ namedNotInFile pkg fl = true) := by
+    (validPkg pkg = false ∧ (∀ f ∈ pkg, endsGo f.name = true) ∧ namedNotInFile pkg fl = true) ∨
+    (validPkg pkg = false ∧ cmd = .new ∧ validPkgL pkg = true ∧ regionValid .new (stripNew pkg) fl = .WF) := by
   unfold region at h
   cases hv : validPkg pkg with
   | true => left; simpa [hv] using h
@@ -1291,13 +1292,213 @@ theorem region_wf_cases {cmd : Cmd} {pkg : Pkg} {fl : Flags} (h : region cmd pkg
     simp only [hv, Bool.false_eq_true, ↓reduceIte] at h
     by_cases hc : (pkg.all (fun f => endsGo f.name) && namedNotInFile pkg fl) = true
     · simp only [Bool.and_eq_true, List.all_eq_true] at hc
-      exact ⟨rfl, hc.1, hc.2⟩
+      exact Or.inl ⟨rfl, hc.1, hc.2⟩
     · simp only [hc, Bool.false_eq_true, ↓reduceIte] at h
-      split at h
-      · split at h
-        · split at h <;> cases h
+      by_cases hn : (cmd == .new && validPkgL pkg) = true
+      · simp only [hn, ↓reduceIte] at h
+        simp only [Bool.and_eq_true, beq_iff_eq] at hn
+        exact Or.inr ⟨rfl, hn.1, hn.2, h⟩
+      · simp only [hn, Bool.false_eq_true, ↓reduceIte] at h
+        split at h
+        · split at h
+          · split at h <;> cases h
+          · cases h
         · cases h
-      · cases h
+
+/-- on a valid package, in a selection form the property talks about and outside the finding regions, the model meets the specification -/
+theorem valid_meets (cmd : Cmd) (pkg : Pkg) (fl : Flags) (hv : validPkg pkg = true) (h : regionValid cmd pkg fl = .WF) :
+    ∃ s, spec cmd pkg fl = some s ∧ meets (run cmd pkg fl) s = true := by
+  have v := validFacts hv
+  unfold regionValid at h
+  cases hm : mode fl with
+  | none => simp [hm] at h
+  | some md =>
+    cases md with
+    | file f sep =>
+      simp only [hm] at h
+      cases hin : (pkg.map File.name).contains f with
+      | true => exact file_mode_meets cmd pkg fl v hm hin
+      | false => rw [hin] at h; simp at h
+    | star sep =>
+      simp only [hm] at h
+      apply star_mode_meets cmd pkg fl v hm
+      by_cases he : (eligibleIn cmd pkg none).isEmpty = true
+      · exact Or.inl he
+      · right
+        simp only [he, Bool.false_eq_true, ↓reduceIte] at h
+        cases hg : (pkg.find? (fun f => f.comments.any (isDirective fl.cmdline))).map (·.name) with
+        | none => simp only [hg] at h; cases sep <;> simp at h
+        | some g0 =>
+          refine ⟨g0, rfl, ?_⟩
+          intro hs n hn
+          simp only [hg, hs, Bool.true_and] at h
+          by_cases hall : (eligibleIn cmd pkg none).all (fun n => fileOf pkg n == some g0) = true
+          · simp only [List.all_eq_true, beq_iff_eq] at hall
+            exact hall n hn
+          · simp [hall] at h
+    | named ns file =>
+      simp only [hm] at h
+      by_cases hnd : ns.Nodup
+      · simp only [hnd, decide_true, Bool.not_true, Bool.false_eq_true, ↓reduceIte] at h
+        have hfm : fileMissing pkg file = false := by
+          cases hx : fileMissing pkg file with
+          | false => rfl
+          | true => rw [hx] at h; simp at h
+        have hfile : ∀ g, file = some g → (pkg.map File.name).contains g = true := by
+          intro g hg
+          subst hg
+          simpa [fileMissing] using hfm
+        simp only [hfm, Bool.false_eq_true, ↓reduceIte] at h
+        by_cases hb : (ns.filter (fun n => !good cmd pkg file n)).isEmpty = true
+        · apply named_good_meets cmd pkg fl v hm hnd hfile
+          intro n hn
+          simp only [List.isEmpty_iff, List.filter_eq_nil_iff, Bool.not_eq_true', Bool.not_eq_false] at hb
+          exact hb n hn
+        · have hbad : ∃ n ∈ ns, good cmd pkg file n = false := by
+            cases hl : ns.filter (fun n => !good cmd pkg file n) with
+            | nil => simp [hl] at hb
+            | cons a r =>
+              have : a ∈ ns.filter (fun n => !good cmd pkg file n) := by simp [hl]
+              simp only [List.mem_filter, Bool.not_eq_true'] at this
+              exact ⟨a, this.1, this.2⟩
+          exact named_bad_meets cmd pkg fl v hm hnd hfile hbad
+      · simp [hnd] at h
+
+theorem region_of_valid {cmd : Cmd} {pkg : Pkg} {fl : Flags} (hv : validPkg pkg = true) (h : regionValid cmd pkg fl = .WF) :
+    region cmd pkg fl = .WF := by
+  simp [region, hv, h]
+
+/-! ### `new` does not look into function bodies: model and specification are invariant under `stripNew` -/
+
+theorem stripNew_cons (f : File) (r : Pkg) :
+    stripNew (f :: r) = { f with decls := f.decls.map stripDecl } :: stripNew r := rfl
+
+theorem topSpecs_strip (ds : List Decl) : topSpecs (ds.map stripDecl) = topSpecs ds := by
+  induction ds with
+  | nil => rfl
+  | cons d r ih => cases d <;> simp [stripDecl, topSpecs, ih]
+
+theorem names_strip (pkg : Pkg) : (stripNew pkg).map File.name = pkg.map File.name := by
+  simp [stripNew, List.map_map, Function.comp_def]
+
+theorem declared_strip (pkg : Pkg) : declared (stripNew pkg) = declared pkg := by
+  induction pkg with
+  | nil => rfl
+  | cons f r ih => simp only [stripNew_cons, declared, topSpecs_strip, ih]
+
+theorem getGoFile_strip (n : String) (pkg : Pkg) : getGoFile n (stripNew pkg) = getGoFile n pkg := by
+  induction pkg with
+  | nil => rfl
+  | cons f r ih => simp only [stripNew_cons, getGoFile, topSpecs_strip, ih]
+
+theorem findAllInOne_strip (cl : String) (pkg : Pkg) : findAllInOne cl (stripNew pkg) = findAllInOne cl pkg := by
+  induction pkg with
+  | nil => rfl
+  | cons f r ih => simp only [stripNew_cons, findAllInOne, ih]
+
+theorem testedTop_strip (file : String) (pkg : Pkg) : testedTop file (stripNew pkg) = testedTop file pkg := by
+  induction pkg with
+  | nil => rfl
+  | cons f r ih => simp only [stripNew_cons, testedTop, topSpecs_strip, ih]
+
+theorem allTop_strip (pkg : Pkg) : allTop (stripNew pkg) = allTop pkg := by
+  induction pkg with
+  | nil => rfl
+  | cons f r ih => simp only [stripNew_cons, allTop, topSpecs_strip, ih]
+
+theorem makeData_new_strip (pkg : Pkg) (sp : Bool) (n : String) :
+    makeData .new (stripNew pkg) sp n = makeData .new pkg sp n := by
+  unfold makeData namedTop
+  rw [allTop_strip]
+
+theorem keep_new_strip (pkg : Pkg) (sp : Bool) (l : List String) : keep .new (stripNew pkg) sp l = keep .new pkg sp l := by
+  induction l with
+  | nil => rfl
+  | cons n r ih => simp only [keep, makeData_new_strip, ih]
+
+theorem confirm_strip (pkg : Pkg) (file : String) (l : List String) : confirm (stripNew pkg) file l = confirm pkg file l := by
+  induction l with
+  | nil => rfl
+  | cons n r ih => simp only [confirm, getGoFile_strip, ih]
+
+theorem run_new_strip (pkg : Pkg) (fl : Flags) : run .new (stripNew pkg) fl = run .new pkg fl := by
+  have h1 : flagCheck (stripNew pkg) fl = flagCheck pkg fl := by simp only [flagCheck, names_strip]
+  have hne : (Cmd.new == Cmd.enum) = false := by decide
+  have h2 : confirmTypes .new (stripNew pkg) fl = confirmTypes .new pkg fl := by
+    simp only [confirmTypes, confirm_strip, listTypes, testedTop_strip, hne, Bool.false_and]
+  have h3 : aioOf (stripNew pkg) fl = aioOf pkg fl := by simp only [aioOf, findAllInOne_strip]
+  simp only [run, h1, h2, h3, keep_new_strip]
+
+theorem findDecl_strip (pkg : Pkg) (n : String) : findDecl (stripNew pkg) n = findDecl pkg n := by
+  simp only [findDecl, declared_strip]
+
+theorem fileOf_strip (pkg : Pkg) (n : String) : fileOf (stripNew pkg) n = fileOf pkg n := by
+  simp only [fileOf, findDecl_strip]
+
+theorem good_new_strip (pkg : Pkg) (file : Option String) (n : String) :
+    good .new (stripNew pkg) file n = good .new pkg file n := by
+  simp only [good, findDecl_strip, acceptable]
+
+theorem eligible_new_strip (pkg : Pkg) (t : TSpec) : eligible .new (stripNew pkg) t = eligible .new pkg t := by
+  simp only [eligible]
+
+theorem eligibleIn_new_strip (pkg : Pkg) (inFile : Option String) :
+    eligibleIn .new (stripNew pkg) inFile = eligibleIn .new pkg inFile := by
+  simp only [eligibleIn, declared_strip, eligible]
+
+theorem perType_strip (pkg : Pkg) : perType (stripNew pkg) = perType pkg := by
+  funext n; simp only [perType, fileOf_strip]
+
+theorem find_directive_strip (cl : String) (pkg : Pkg) :
+    ((stripNew pkg).find? (fun f => f.comments.any (isDirective cl))).map (·.name)
+      = (pkg.find? (fun f => f.comments.any (isDirective cl))).map (·.name) := by
+  induction pkg with
+  | nil => rfl
+  | cons f r ih =>
+    simp only [stripNew_cons, List.find?_cons]
+    cases h : f.comments.any (isDirective cl) with
+    | true => simp
+    | false => simpa using ih
+
+theorem spec_new_strip (pkg : Pkg) (fl : Flags) : spec .new (stripNew pkg) fl = spec .new pkg fl := by
+  unfold spec
+  simp only [good_new_strip, eligibleIn_new_strip, find_directive_strip, perType_strip]
+
+theorem noLocals_strip (ds : List Decl) : noLocals (ds.map stripDecl) = true := by
+  induction ds with
+  | nil => rfl
+  | cons d r ih => cases d <;> simp [stripDecl, noLocals, ih]
+
+theorem constsValid_strip (ds : List Decl) : constsValid (ds.map stripDecl) = true := by
+  induction ds with
+  | nil => rfl
+  | cons d r ih => cases d <;> simp [stripDecl, constsValid, ih]
+
+theorem constTypes_strip (ds : List Decl) : constTypes (ds.map stripDecl) = [] := by
+  induction ds with
+  | nil => rfl
+  | cons d r ih => cases d <;> simp [stripDecl, constTypes, ih]
+
+theorem validPkg_strip {pkg : Pkg} (h : validPkgL pkg = true) : validPkg (stripNew pkg) = true := by
+  unfold validPkgL at h
+  unfold validPkg constTypesOK
+  simp only [Bool.and_eq_true] at h ⊢
+  obtain ⟨⟨⟨⟨h1, h2⟩, h3⟩, h4⟩, h5⟩ := h
+  rw [names_strip, declared_strip]
+  refine ⟨⟨⟨⟨⟨h1, h2⟩, h3⟩, ?_⟩, ?_⟩, h5⟩
+  · rw [List.all_eq_true]
+    intro g hg
+    simp only [stripNew, List.mem_map] at hg
+    obtain ⟨f, hf, rfl⟩ := hg
+    have := List.all_eq_true.mp h4 f hf
+    simp only [Bool.and_eq_true] at this
+    simp only [noLocals_strip, constsValid_strip, Bool.true_and]
+    exact this.2
+  · rw [List.all_eq_true]
+    intro g hg
+    simp only [stripNew, List.mem_map] at hg
+    obtain ⟨f, hf, rfl⟩ := hg
+    simp only [constTypes_strip, List.all_nil]
 
 /-! ### output names have no path separator -/
 
